@@ -20,8 +20,41 @@ EXPLANATION = (
 )
 
 
+def _sec_tag_cells(ctx):
+    """parse_sec evaluated for every tag byte 0..255 with 33 and with 65 bytes (complete domain of the tag; the decoder looks at the rest only
+    through the square root and the constructor, which are stand-ins): only 02 / 03 with 33 bytes and 04 with 65 bytes may decode"""
+    from sa.cells import ClassRef, Evaluator, Obj, Raised
+    spec = "pecc:S256Point.parse_sec"
+    mod, fn = rl.get(ctx, spec)
+    P = SECP256K1["P"]
+    hooks = {("S256Field", "sqrt"): lambda o, *a, **k: Obj("pecc", "S256Field", {"num": 4, "prime": P}),
+             ("S256Point", "__init__"): lambda o, x=None, y=None, **kw: o.attrs.update({"x": x, "y": y})}
+    wrong = []
+    for tag in range(256):
+        for ln in (33, 65):
+            ctx.count("cells")
+            data = bytes([tag]) + SECP256K1["GX"].to_bytes(32, "big") + (SECP256K1["GY"].to_bytes(32, "big") if ln == 65 else b"")
+            try:
+                Evaluator(ctx.repo, method_hooks=hooks).call(spec, [data], self_obj=ClassRef("pecc", "S256Point"))
+                ok = True
+            except Raised:
+                ok = False
+            want = (tag in (2, 3) and ln == 33) or (tag == 4 and ln == 65)
+            if ok != want:
+                wrong.append("tag %02x with %d bytes is %s" % (tag, ln, "decoded" if ok else "refused"))
+    if wrong:
+        return [ctx.bad(spec, "SEC tag dispatch: %s%s; only 02 / 03 (33 bytes) and 04 (65 bytes) are encodings" % ("; ".join(wrong[:3]), " … (%d cells)" % len(wrong) if len(wrong) > 3 else ""),
+                        fn, mod, key="accept:tag")]
+    return [ctx.ok(spec, "of the 512 (tag, length) cells only 02 / 03 with 33 bytes and 04 with 65 bytes decode", fn, mod, key="accept:tag")]
+
+
 def c03_1(ctx):
     """parse_sec: accepted tag bytes ⊆ {2,3,4}"""
+    from sa.cells import Undecided
+    try:
+        return _sec_tag_cells(ctx)
+    except Undecided:
+        pass
     mod, fn = rl.get(ctx, "pecc:S256Point.parse_sec")
     p = param_names(fn)[1]
     key = "%s[0]" % p
@@ -378,8 +411,51 @@ def _lift_cells(ctx, spec):
     return sorted(set(problems)), sorted(set(facts))
 
 
+def _sec_cells(ctx):
+    """S256Point.sec evaluated for y even / odd x compressed / uncompressed: 02 ‖ x for even y, 03 ‖ x for odd y, 04 ‖ x ‖ y, coordinates as
+    32-byte big-endian strings (x and y chosen with leading zero bytes and with all bytes different, so that width and byte order show)"""
+    from sa.cells import Evaluator, Obj, Raised, Undecided
+    spec = "pecc:S256Point.sec"
+    mod, fn = rl.get(ctx, spec)
+    P = SECP256K1["P"]
+    xs = [int.from_bytes(bytes(range(1, 33)), "big"), 0x0102]
+    for X in xs:
+        for Y in (int.from_bytes(bytes(range(101, 133)), "big") & ~1, (int.from_bytes(bytes(range(101, 133)), "big") | 1), 0x0304, 0x0305):
+            for compressed in (True, False):
+                ctx.count("cells")
+                me = Obj("pecc", "S256Point", {"x": Obj("pecc", "S256Field", {"num": X, "prime": P}), "y": Obj("pecc", "S256Field", {"num": Y, "prime": P}), "parity": Y % 2})
+                try:
+                    r = Evaluator(ctx.repo).call(spec, [], kwargs={"compressed": compressed}, self_obj=me)
+                except Raised as x_:
+                    return ctx.bad(spec, "sec(compressed=%s) raises %s" % (compressed, x_.name), fn, mod, key="sec-map")
+                want = (bytes([2 + Y % 2]) + X.to_bytes(32, "big")) if compressed else (b"\x04" + X.to_bytes(32, "big") + Y.to_bytes(32, "big"))
+                if r != want:
+                    return ctx.bad(spec, "sec(compressed=%s) of a point with %s y is %s…, SEC 1 says %s… (02 ‖ x for even Y, 03 ‖ x for odd Y, 04 ‖ x ‖ y; 32-byte big-endian "
+                                         "coordinates)" % (compressed, "odd" if Y % 2 else "even", r[:4].hex() if isinstance(r, bytes) else r, want[:4].hex()), fn, mod, key="sec-map")
+    return ctx.ok(spec, "02 ‖ x for even Y, 03 ‖ x for odd Y, 04 ‖ x ‖ y uncompressed (32-byte big endian)", fn, mod, key="sec-map")
+
+
 def c03_8(ctx):
     """parity → prefix mapping identical in sec() and parse_sec()"""
+    from sa.cells import Undecided as _U0
+    try:
+        enc = _sec_cells(ctx)
+    except _U0:
+        enc = None
+    if enc is not None:
+        out = [enc]
+        try:
+            pr1, f1 = _lift_cells(ctx, "pecc:S256Point.parse_sec")
+            pr2, f2 = _lift_cells(ctx, "pecc:S256Point.parse_xonly")
+            mod, fn = rl.get(ctx, "pecc:S256Point.parse_sec")
+            modx, fnx = rl.get(ctx, "pecc:S256Point.parse_xonly")
+            out.append(ctx.bad("pecc:S256Point.parse_sec", "; ".join(pr1), fn, mod, key="parse-map") if pr1 else
+                       ctx.ok("pecc:S256Point.parse_sec", "; ".join(f1), fn, mod, key="parse-map"))
+            out.append(ctx.bad("pecc:S256Point.parse_xonly", "; ".join(pr2), fnx, modx, key="xonly-even") if pr2 else
+                       ctx.ok("pecc:S256Point.parse_xonly", "x-only lift returns the even-Y root for a root of either parity", fnx, modx, key="xonly-even"))
+            return out
+        except _U0:
+            pass
     out = []
     mod, fn = rl.get(ctx, "pecc:S256Point.sec")
     cfg = cfg_of(fn)
@@ -977,7 +1053,7 @@ def c03_16(ctx):
         return Obj("pecc", "FieldElement", {"num": n, "prime": p})
 
     def pt(P, p):
-        return Obj("pecc", "Point", {"x": None if P is None else fe(P[0], p), "y": None if P is None else fe(P[1], p), "a": fe(0, p), "b": fe(7, p)})
+        return Obj("pecc", "Point", {"x": None if P is None else fe(P[0], p), "y": None if P is None else fe(P[1], p), "a": fe(0, p), "b": fe(7 % p, p)})
     total = 0
     for p in (5, 11, 13, 17, 19, 31):
         pts = [None] + [(x, y) for x in range(p) for y in range(p) if (y * y - x ** 3 - 7) % p == 0]
